@@ -53,7 +53,11 @@ Record Post (S G pend : list task) (w w' : world) (seg : list event) : Prop := m
   po_others : forall m, ~ In m (execs seg) -> ~ In m G ->
     kids_of (gr w') (tn m) = kids_of (gr w) (tn m) /\
     (forall d, get_edata (gr w') (tn m) d = get_edata (gr w) (tn m) d) /\
-    get_task_output w' m = get_task_output w m
+    get_task_output w' m = get_task_output w m;
+  (* a task becomes consistent only by being executed, or by being reused (then it had an output before) *)
+  po_newcons : forall x, memN x (consistent w') = true ->
+    memN x (consistent w) = true \/ In x (execs seg) \/ get_task_output w x <> None;
+  po_pendex : forall x, In x pend -> In x (execs seg) \/ get_task_output w x <> None
 }.
 
 Lemma tn_inj a b : tn a = tn b -> a = b. Proof. unfold tn. lia. Qed.
@@ -145,12 +149,14 @@ Proof.
     + intros t d X. rewrite E in X. unfold get_task_output. rewrite O. apply (N t d X).
     + intros t X. rewrite M in X. unfold get_task_output. rewrite O. apply (C t X).
   - intros m _ _. split; [apply K|]. split; [intros d; apply E|]. unfold get_task_output. rewrite O. reflexivity.
+  - intros x X. left. rewrite <- M. exact X.
+  - intros x [].
 Qed.
 
 Lemma post_seq S G pend w w1 w2 a b :
   Post S G [] w w1 a -> Post S G pend w1 w2 b -> Post S G pend w w2 (a ++ b).
 Proof.
-  intros [A1 A2 A3 A4 A5 A6 A7 A8 A9 A10 A11 A12 A13 A14] [B1 B2 B3 B4 B5 B6 B7 B8 B9 B10 B11 B12 B13 B14]. constructor.
+  intros [A1 A2 A3 A4 A5 A6 A7 A8 A9 A10 A11 A12 A13 A14 A15 A16] [B1 B2 B3 B4 B5 B6 B7 B8 B9 B10 B11 B12 B13 B14 B15 B16]. constructor.
   - exact B1.
   - intros s Hs. rewrite B2, A2 by exact Hs. reflexivity.
   - intros g x Hg X. apply B3; [exact Hg|]. apply A3; assumption.
@@ -172,6 +178,18 @@ Proof.
     destruct (A14 m (fun X => Hm (in_or_app _ _ _ (or_introl X))) Hg) as [P1 [P2 P3]].
     destruct (B14 m (fun X => Hm (in_or_app _ _ _ (or_intror X))) Hg) as [Q1 [Q2 Q3]].
     split; [rewrite Q1, P1; reflexivity|]. split; [intros d; rewrite Q2, P2; reflexivity|rewrite Q3, P3; reflexivity].
+  - intros x X. destruct (B15 x X) as [Y|[Y|Y]].
+    + destruct (A15 x Y) as [Z|[Z|Z]]; [left; exact Z|right; left; rewrite execs_app; apply in_or_app; left; exact Z|right; right; exact Z].
+    + right. left. rewrite execs_app. apply in_or_app. right. exact Y.
+    + destruct (in_dec N.eq_dec x (execs a)) as [I|NI]; [right; left; rewrite execs_app; apply in_or_app; left; exact I|].
+      right. right. destruct (in_dec N.eq_dec x G) as [IG|NG].
+      * rewrite <- (A12 x (or_intror IG)). exact Y.
+      * destruct (A14 x NI NG) as [_ [_ O]]. rewrite <- O. exact Y.
+  - intros x X. destruct (B16 x X) as [Y|Y]; [left; rewrite execs_app; apply in_or_app; right; exact Y|].
+    destruct (in_dec N.eq_dec x (execs a)) as [I|NI]; [left; rewrite execs_app; apply in_or_app; left; exact I|].
+    right. destruct (in_dec N.eq_dec x G) as [IG|NG].
+    + rewrite <- (A12 x (or_intror IG)). exact Y.
+    + destruct (A14 x NI NG) as [_ [_ O]]. rewrite <- O. exact Y.
 Qed.
 
 (* weaker record for aborted computations: what was executed before the abort, and the invariants of the store left behind *)
@@ -183,10 +201,10 @@ Record PostA (S G : list task) (w w' : world) (seg : list event) : Prop := mkPos
   pa_inv : Inv2 w -> Inv2 w'
 }.
 Lemma post_to_A S G pend w w' seg : Post S G pend w w' seg -> PostA S G w w' seg.
-Proof. intros [A1 A2 A3 A4 A5 A6 A7 A8 A9 A10 A11 A12 A13 A14]. constructor; assumption. Qed.
+Proof. intros [A1 A2 A3 A4 A5 A6 A7 A8 A9 A10 A11 A12 A13 A14 A15 A16]. constructor; assumption. Qed.
 Lemma postA_seq S G w w1 w2 a b : Post S G [] w w1 a -> PostA S G w1 w2 b -> PostA S G w w2 (a ++ b).
 Proof.
-  intros [A1 A2 A3 A4 A5 A6 A7 A8 A9 A10 A11 A12 A13 A14] [B1 B5 B6 B7 B13]. constructor.
+  intros [A1 A2 A3 A4 A5 A6 A7 A8 A9 A10 A11 A12 A13 A14 A15 A16] [B1 B5 B6 B7 B13]. constructor.
   - exact B1.
   - rewrite B5, A5, rev_app_distr, app_assoc. reflexivity.
   - rewrite execs_app. apply NoDup_app_intro_t; try assumption.
@@ -442,7 +460,7 @@ Qed.
 End X.
 
 (* a leaf step of the executing task t (which has no output: it was reset), seen from the stack t :: S *)
-Lemma leaf_post S t pend w w' : Leaf t w w' -> ~ In t S -> get_task_output w t = None -> exists seg, Post S [t] pend w w' seg.
+Lemma leaf_post S t (pend : list task) w w' : Leaf t w w' -> ~ In t S -> get_task_output w t = None -> exists seg, Post S [t] [] w w' seg.
 Proof.
   intros L Ht Ho. pose proof (leaf_inv t w w' L Ho) as LI.
   destruct L as [A1 [G1 [G2 G3]] [seg [A3 A3']] A4 A5 A6 A7]. exists seg. constructor.
@@ -461,6 +479,8 @@ Proof.
   - exact LI.
   - intros m _ Hm. assert (Hne : tn m <> tn t) by (intros E; apply tn_inj in E; subst; apply Hm; left; reflexivity).
     split; [apply G1; exact Hne|]. split; [intros d; apply A6; exact Hne|]. unfold get_task_output. rewrite A7. reflexivity.
+  - intros x X. left. rewrite <- A4. exact X.
+  - intros x [].
 Qed.
 Lemma leaf_postA S t w w' : Leaf t w w' -> get_task_output w t = None -> exists seg, PostA S [t] w w' seg.
 Proof.
@@ -472,7 +492,7 @@ Qed.
 (* ---- more Post algebra ---- *)
 Lemma post_shift S t pend w w' seg : Post (t :: S) [] pend w w' seg -> Post S [t] pend w w' seg.
 Proof.
-  intros [A1 A2 A3 A4 A5 A6 A7 A8 A9 A10 A11 A12 A13 A14]. constructor; try assumption.
+  intros [A1 A2 A3 A4 A5 A6 A7 A8 A9 A10 A11 A12 A13 A14 A15 A16]. constructor; try assumption.
   - intros s Hs. apply A2. right. exact Hs.
   - intros g x [<-|[]] X. rewrite A2 by (left; reflexivity). exact X.
   - intros x X. destruct (A7 x X) as [P1 [_ P3]]. split; [intros Y; apply P1; right; exact Y|].
@@ -484,7 +504,7 @@ Proof.
 Qed.
 Lemma post_drop S t pend w w' seg : Post (t :: S) [] pend w w' seg -> Post S [] pend w w' seg.
 Proof.
-  intros [A1 A2 A3 A4 A5 A6 A7 A8 A9 A10 A11 A12 A13 A14]. constructor; try assumption.
+  intros [A1 A2 A3 A4 A5 A6 A7 A8 A9 A10 A11 A12 A13 A14 A15 A16]. constructor; try assumption.
   - intros s Hs. apply A2. right. exact Hs.
   - intros x X. destruct (A7 x X) as [P1 [_ P3]]. split; [intros Y; apply P1; right; exact Y|]. split; [intros []|exact P3].
   - intros s [Hs|[]]. apply A10. left. right. exact Hs.
@@ -511,6 +531,8 @@ Proof.
   - rewrite E. constructor. - rewrite E. intros x []. - intros x X; exact X. - rewrite E. intros x [].
   - intros s _ X; exact X. - intros; reflexivity. - intros; reflexivity. - intros X; exact X.
   - intros m _ _. repeat split.
+  - intros x X. left. exact X.
+  - intros x [].
 Qed.
 Lemma post_push_err S G w e : StoreOK w -> Post S G [] w (push_err w e) [].
 Proof. intros H. apply post_quiet; try reflexivity; tauto. Qed.
@@ -519,7 +541,7 @@ Lemma memN_cons x t l : memN x (t :: l) = N.eqb x t || memN x l. Proof. reflexiv
 Lemma post_mark S G t w w' seg : Post S G [t] w w' seg -> ~ In t S -> ~ In t G -> get_task_output w' t <> None ->
   Post S G [] w (mark_consistent w' t) seg.
 Proof.
-  intros [A1 A2 A3 A4 A5 A6 A7 A8 A9 A10 A11 A12 A13 A14] HS HG Ho. constructor; try assumption.
+  intros [A1 A2 A3 A4 A5 A6 A7 A8 A9 A10 A11 A12 A13 A14 A15 A16] HS HG Ho. constructor; try assumption.
   - intros x X. unfold mark_consistent. cbn [consistent set_consistent]. rewrite memN_cons, (A8 x X). apply orb_true_r.
   - intros x X. left. unfold mark_consistent. cbn [consistent set_consistent]. rewrite memN_cons.
     destruct (A9 x X) as [Z|[<-|[]]]; [rewrite Z; apply orb_true_r|rewrite N.eqb_refl; reflexivity].
@@ -529,9 +551,13 @@ Proof.
     intros x Y. unfold mark_consistent in Y. cbn [consistent set_consistent] in Y. rewrite memN_cons in Y.
     change (get_task_output w' x <> None). destruct (N.eq_dec x t) as [E|Hne]; [subst x; exact Ho|].
     apply C. rewrite (proj2 (N.eqb_neq x t) Hne) in Y. exact Y.
+  - intros x X. unfold mark_consistent in X. cbn [consistent set_consistent] in X. rewrite memN_cons in X.
+    destruct (N.eq_dec x t) as [E|Hne]; [subst x; right; apply (A16 t); left; reflexivity|].
+    rewrite (proj2 (N.eqb_neq x t) Hne) in X. apply A15. exact X.
+  - intros x [].
 Qed.
-Lemma post_pend S G pend w w' seg : Post S G [] w w' seg -> Post S G pend w w' seg.
-Proof. intros [A1 A2 A3 A4 A5 A6 A7 A8 A9 A10 A11 A12 A13 A14]. constructor; try assumption. intros x X. destruct (A9 x X) as [Z|[]]. left. exact Z. Qed.
+Lemma post_pend S G pend w w' seg : Post S G [] w w' seg -> (forall x, In x pend -> In x (execs seg) \/ get_task_output w x <> None) -> Post S G pend w w' seg.
+Proof. intros [A1 A2 A3 A4 A5 A6 A7 A8 A9 A10 A11 A12 A13 A14 A15 A16] HP. constructor; try assumption. intros x X. destruct (A9 x X) as [Z|[]]. left. exact Z. Qed.
 
 (* composition through outcomes *)
 Lemma okP_pre {A} S G pend w w1 a (m : outcome A) extra :
@@ -731,7 +757,7 @@ Proof.
   assert (N2 : NoResAt w2 t) by (intros d; change (gr w2) with (gr w1); rewrite E0; discriminate).
   pose proof (exec_prog_spec t S req HR (P t) w2 H2 J2 Ch2 eq_refl O0 N2) as B.
   destruct (exec_prog RC OC req (P t) w2) as [o w3|k w3|]; cbn [bind okP] in *; [| |exact Logic.I].
-  - destruct B as [[body [A1 A2 A3 A4 A5 A6 A7 A8 A9 A10 A11 A12 A13 A14]] [Hc3 Hn3]].
+  - destruct B as [[body [A1 A2 A3 A4 A5 A6 A7 A8 A9 A10 A11 A12 A13 A14 A15 A16]] [Hc3 Hn3]].
     set (w4 := set_task_output (set_cur (emit w3 (EExecEnd t o)) (cur w1)) t o).
     split; [|split; [exact U1|apply alookup_aset_eq]].
     exists (EExecStart t :: body ++ [EExecEnd t o]).
@@ -774,6 +800,11 @@ Proof.
       * change (kids_of (gr w3) (tn m) = kids_of (gr w) (tn m)). rewrite Q1. change (gr w2) with (gr w1). apply K1. intros E; apply tn_inj in E; contradiction.
       * intros d. change (get_edata (gr w3) (tn m) d = get_edata (gr w) (tn m) d). rewrite Q2. change (gr w2) with (gr w1). apply E1. intros E; apply tn_inj in E; contradiction.
       * rewrite O4 by exact Hne. rewrite Q3. change (get_task_output w1 m = get_task_output w m). apply O1. exact Hne.
+    + rewrite EX. intros x X. change (memN x (consistent w3) = true) in X. destruct (A15 x X) as [Y|[Y|Y]].
+      * left. change (consistent w2) with (consistent w1) in Y. rewrite C1 in Y. exact Y.
+      * right. left. right. exact Y.
+      * right. right. change (get_task_output w1 x <> None) in Y. destruct (N.eq_dec x t) as [E|Hne]; [subst x; contradiction|]. rewrite <- (O1 x Hne). exact Y.
+    + rewrite EX. intros x [<-|[]]. left. left. reflexivity.
   - destruct B as [->|[U [body [A1 A5 A6 A7 A13]]]]; [left; reflexivity|right]. split; [exact U|].
     exists (EExecStart t :: body).
     assert (EX : execs (EExecStart t :: body) = t :: execs body) by reflexivity.
@@ -914,7 +945,7 @@ Proof.
            split; [|split; [reflexivity|split; [|exact Ho1]]].
            2:{ unfold mark_consistent. cbn [consistent set_consistent]. rewrite memN_cons, N.eqb_refl. reflexivity. }
            exists []. apply post_mark; [|exact Ht|intros []|congruence].
-           apply post_pend. apply post_refl. apply (po_ok _ _ _ _ _ _ P1).
+           apply post_pend; [apply post_refl; apply (po_ok _ _ _ _ _ _ P1)|]. intros x [<-|[]]. right. congruence.
         -- apply exec_mark_spec; try assumption. apply (po_ok _ _ _ _ _ _ P1).
       * apply (okP_drop S t). exact CD.
     + apply exec_mark_spec; assumption.
